@@ -164,3 +164,36 @@ Example order_reached :
   | None => False
   end.
 Proof. vm_compute. auto. Qed.
+
+(* ---------- redundant Unsubscribe calls.  The subscriber set is a map: Unsubscribe of a channel that
+   is not (or no longer) subscribed, or that the broker never handed out, is a no-op on it; such calls
+   are ordinary events of the model (ECall k (OpUnsub s) has no guard). *)
+Lemma redundant_unsub_noop : forall s st, ~ In s (subs st) -> subs (do_unsub s st) = subs st.
+Proof. intros s st H. unfold do_unsub, set_subs, set_wk; simpl. apply rem_notin; auto. Qed.
+
+Lemma redundant_unsub_keeps : forall s s' st, In s' (subs st) -> s' <> s -> In s' (subs (do_unsub s st)).
+Proof. intros s s' st H N. unfold do_unsub, set_subs, set_wk; simpl. apply In_rem; auto. Qed.
+
+(* keeper 0 and leaver 1; the leaver is unsubscribed twice, a channel 5 that was never subscribed once;
+   the message published afterwards is owed to the keeper, who never unsubscribed, and is delivered:
+   the state satisfies every premise of C08_subscribed_throughout_exactly_once *)
+Definition redundant_schedule : list event :=
+  [ECall 0 (OpSub 0); ESubSend 0; ECall 1 (OpSub 1); ESubSend 1;
+   ECall 2 (OpUnsub 1); EUnsubSend 2; ECall 3 (OpUnsub 1); EUnsubSend 3; ECall 4 (OpUnsub 5); EUnsubSend 4;
+   ECall 6 (OpPub 7); EPub 6; ELoopPush; ETake 0; ERangeNext 0 0; ESend 0 0; ERangeEnd 0; EEnd 0; EPark 0].
+
+Definition redundant_final : state := Eval vm_compute in
+  match run queue_cfg wake_exact init redundant_schedule with Some st => st | None => init end.
+
+Example redundant_unsub_exactly_once :
+  run queue_cfg wake_exact init redundant_schedule = Some redundant_final /\
+  subs redundant_final = [0] /\ unsubcalled redundant_final = [1; 1; 5] /\
+  owed redundant_final 0 = [7] /\ rcv redundant_final 0 = [7] /\ rcv redundant_final 1 = [] /\
+  live redundant_final = true /\ quiescent queue_cfg wake_exact redundant_final.
+Proof.
+  repeat split; try (vm_compute; reflexivity).
+  intros e I. destruct e; try discriminate I; try reflexivity.
+  all: try (destruct k as [|[|[|[|[|[|[|k]]]]]]]; reflexivity).
+  all: try (destruct w as [|w]; reflexivity).
+  all: try (destruct s as [|[|s]]; reflexivity).
+Qed.
